@@ -19,6 +19,8 @@ import (
 type Case struct {
 	Set   *ymodel.Set `json:"set"`
 	Order []int       `json:"order,omitempty"`
+	// StoreUses: the option that keeps the uses statements on the entries is set (the trees are the same)
+	StoreUses bool `json:"store_uses,omitempty"`
 	// Late: a late problem was planted (augment collision, inapplicable
 	// deviation): the set must not process cleanly.
 	Late string `json:"late,omitempty"`
@@ -155,7 +157,7 @@ func check(c Case) (o ev.Outcome) {
 	}
 	srcs := schema.Sources(c.Set, c.Order)
 	var obs *schema.Observed
-	if !ev.Guard(&o, "load+process", func() { obs = schema.Load(srcs, nil) }) {
+	if !ev.Guard(&o, "load+process", func() { obs = schema.Load(srcs, func(ms *yang.Modules) { ms.ParseOptions.StoreUses = c.StoreUses }) }) {
 		// crashes belong to C01; keep the signature distinct
 		for i := range o.Violations {
 			o.Violations[i].Sig = "C04/" + o.Violations[i].Sig
@@ -390,6 +392,7 @@ func gen(t *rapid.T) Case {
 	if rapid.Bool().Draw(t, "permute") {
 		c.Order = schema.Order(t, len(set.Modules))
 	}
+	c.StoreUses = rapid.IntRange(0, 3).Draw(t, "store-uses") == 0
 	return c
 }
 
